@@ -333,6 +333,15 @@ func (r *Runner) Do(i int) (*Mismatch, error) {
 						return &Mismatch{Step: i, Kind: "ryw", Key: o.K, Msg: fmt.Sprintf("tx SeekToLast: live entry %s = %s, want %s = %s (found=%v)", brief(it.Key()), brief(gv), brief([]byte(wantK)), brief(wantV), have), Ctx: "tx-last"}, nil
 					}
 				}
+				if it.Valid() {
+					// nothing lies behind the last entry
+					at := append([]byte{}, it.Key()...)
+					it.Next()
+					if it.Valid() {
+						_ = tx.Rollback()
+						return &Mismatch{Step: i, Kind: "ryw", Key: o.K, Msg: fmt.Sprintf("tx SeekToLast landed on %s, Next then yields %s instead of ending", brief(at), brief(it.Key())), Ctx: "tx-last-next"}, nil
+					}
+				}
 			case "get":
 				got, err := tx.Get(k)
 				if err != nil && !IsNotFound(err) {
